@@ -91,7 +91,9 @@ func (bc *Blockchain) PrevalidateBlock(b *block.Block, txs []*transaction.Transa
 		}
 	}
 
-	if b.Height != 440 {
+	// mainnet block 440 repeats a side block; it is pinned by the checkpoints, which is the only place where the
+	// exemption may apply (a network without that checkpoint has no such block)
+	if b.Height != 440 || !checkpoints.IsSecured(b.Height) {
 		for i, v := range b.SideBlocks {
 			if v.Ancestors == b.Ancestors {
 				return fmt.Errorf("side block has the same height as current block")
